@@ -152,8 +152,13 @@ static std::string shape_of(const std::vector<Op> &h) {
 }
 
 int main(int argc, char **argv) {
-  g_L = argc > 1 ? atoi(argv[1]) : 0; size_t depth = argc > 2 ? atoi(argv[2]) : 3;
   signal(SIGPIPE, SIG_IGN);
+  if (argc > 3 && std::string(argv[1]) == "--one") {   // detail pass: one history, in-process, let it die loudly
+    g_L = atoi(argv[2]); std::vector<Op> h; for (const char *p = argv[3]; *p;) { int c = atoi(p); p = strchr(p, '.') + 1; int g = atoi(p); h.push_back({c, g}); p = strchr(p, ','); if (!p) break; p++; }
+    g_loop = event::Loop::New(); std::string v; replay(h, v); fprintf(stderr, "viol=%s\n", v.c_str()); return 0;
+  }
+  g_L = argc > 1 ? atoi(argv[1]) : 0; size_t depth = argc > 2 ? atoi(argv[2]) : 3;
+  std::map<std::string, int> crash_seen;
   g_worker.recycle_after = 20000;
   g_worker.fn = [](const std::string &job) {
     if (!g_loop) g_loop = event::Loop::New();
@@ -169,7 +174,8 @@ int main(int argc, char **argv) {
     // the child died while evaluating exactly this history
     std::string kind = crash.find("heap-use-after-free") != std::string::npos ? "use-after-free" : crash.find("uncaught-exception") != std::string::npos ? "uncaught-exception" :
                        crash.find("hang") == 0 ? "hang" : crash.find("ubsan-integer") != std::string::npos ? "undefined-behaviour" : "crash";
-    viol = shape_of(h) + "-" + kind + " " + crash;
+    std::string sig = shape_of(h) + "-" + kind; viol = sig + " " + crash;
+    if (crash_seen[sig]++ < 3) { std::string ops; for (auto &o : h) ops += (ops.empty() ? "" : ",") + std::to_string(o.c) + "." + std::to_string(o.glue); viol += " :: " + exec_detail({"--one", std::to_string(g_L), ops}); }
     return std::string("crashed");
   };
   ex.explore(depth);
